@@ -991,6 +991,7 @@ func (cl *simCluster) counters() (moved, asks int) {
 // ---------------------------------------------------------------- the processor under test
 
 var simProxySeq int
+var simProxyLimit uint32 // connection limit of the next processor started
 var simTimersOnce sync.Once
 
 type simProxy struct {
@@ -1031,6 +1032,7 @@ func startRedisProxy(seeds []string, strategy int32) *simProxy {
 	name := fmt.Sprintf("sim%d", simProxySeq)
 	port := freePort()
 	cfg := redisConfig(port, strategy, 300*time.Millisecond)
+	cfg.Listener.ConnectionLimit = simProxyLimit
 	if err := cfg.Validate(); err != nil {
 		die("sim config: %v", err)
 	}
